@@ -31,6 +31,7 @@ type c16CacheScenario struct {
 	WaiterTopics []int        `json:"waiter_topics"` // topic each waiter follows
 	Ops          []c16CacheOp `json:"ops"`
 	Cancel       bool         `json:"cancel"`
+	Readers      []int        `json:"readers,omitempty"` // topic each reader lists (GetPeersForTopics, GetPeers) meanwhile
 }
 
 func c16PeerID(i int) peer.ID { return peer.ID(fmt.Sprintf("12D3KooW-verif-peer-%02d", i)) }
@@ -84,6 +85,38 @@ func c16CacheRun(t *testing.T, sc c16CacheScenario, choices []int) vsched.Outcom
 				}
 			})
 		}
+		for i, tp := range sc.Readers {
+			topic := fmt.Sprintf("topic%d", tp)
+			s.Go(fmt.Sprintf("reader%d", i), func() {
+				prev := map[peer.ID]bool{}
+				for round := 0; round < 2; round++ {
+					now := map[peer.ID]bool{}
+					for _, ai := range c.GetPeersForTopics(topic) {
+						registered := false
+						for _, op := range sc.Ops {
+							if op.Topic == tp && c16PeerID(op.Peer) == ai.ID {
+								registered = true
+							}
+						}
+						if (!registered || now[ai.ID]) && exact == "" {
+							exact = fmt.Sprintf("reader%d: listing of %s holds %q (registered on it: %v, already listed: %v)", i, topic, ai.ID, registered, now[ai.ID])
+						}
+						now[ai.ID] = true
+					}
+					for id := range prev {
+						if !now[id] && exact == "" {
+							exact = fmt.Sprintf("reader%d: peer %q listed on %s, then no longer listed (nothing removes peers here)", i, id, topic)
+						}
+					}
+					prev = now
+					for _, ai := range c.GetPeers(c16PeerID(1)) {
+						if ai.ID != "" && ai.ID != c16PeerID(1) && exact == "" {
+							exact = fmt.Sprintf("reader%d: GetPeers(peer 1) returned %q", i, ai.ID)
+						}
+					}
+				}
+			})
+		}
 		s.Go("updater", func() {
 			for _, op := range sc.Ops {
 				c.UpdatePeer(fmt.Sprintf("topic%d", op.Topic), peer.AddrInfo{ID: c16PeerID(op.Peer)})
@@ -108,6 +141,14 @@ func c16CacheRun(t *testing.T, sc c16CacheScenario, choices []int) vsched.Outcom
 	}
 	if st := out.Res.Status("updater"); st != nil && st.State != "done" {
 		out.Fail("updater-stuck", "updater did not finish: %+v", *st)
+	}
+	for i := range sc.Readers {
+		if st := out.Res.Status(fmt.Sprintf("reader%d", i)); st != nil && st.State != "done" {
+			out.Fail("reader-stuck", "reader%d did not finish: %+v", i, *st)
+		}
+	}
+	if len(sc.Readers) > 0 {
+		out.Labels = append(out.Labels, "peercache/with-reader")
 	}
 	slept := false
 	for i, tp := range sc.WaiterTopics {
@@ -166,11 +207,13 @@ func TestVerif_C16_PeerCache(t *testing.T) {
 		{WaiterTopics: []int{0}, Ops: []c16CacheOp{{1, 1}, {0, 2}}},
 		{WaiterTopics: []int{0}, Ops: []c16CacheOp{{0, 1}}, Cancel: true},
 		{WaiterTopics: []int{0, 1}, Ops: []c16CacheOp{{0, 1}, {1, 1}}},
+		{WaiterTopics: []int{0}, Ops: []c16CacheOp{{0, 1}, {0, 2}}, Readers: []int{0}},
 	}
 	maxRuns, maxPre := 5000, 3
 	if vacct.Thorough() {
 		scs = append(scs, c16CacheScenario{WaiterTopics: []int{0, 0}, Ops: []c16CacheOp{{0, 1}, {0, 2}, {0, 3}}},
-			c16CacheScenario{WaiterTopics: []int{0, 1}, Ops: []c16CacheOp{{0, 1}, {1, 2}, {0, 3}}, Cancel: true})
+			c16CacheScenario{WaiterTopics: []int{0, 1}, Ops: []c16CacheOp{{0, 1}, {1, 2}, {0, 3}}, Cancel: true},
+			c16CacheScenario{WaiterTopics: []int{0}, Ops: []c16CacheOp{{0, 1}, {1, 2}, {0, 3}}, Readers: []int{0, 1}})
 		maxRuns, maxPre = 300000, 6
 	}
 	shard, nshards := vacct.Shard()
@@ -194,6 +237,7 @@ func TestVerif_C16_PeerCacheRandom(t *testing.T) {
 			// distinct peers: under the fake clock equal timestamps would hide a second update of the same peer
 			sc.Ops = append(sc.Ops, c16CacheOp{Topic: rapid.IntRange(0, 1).Draw(rt, "topic"), Peer: i + 1})
 		}
+		sc.Readers = rapid.SliceOfN(rapid.IntRange(0, 1), 0, 1).Draw(rt, "readers")
 		return sc
 	}, 250)
 }
